@@ -492,6 +492,24 @@ def _touches_field(prog, fn, region, field, also=(), depth=2):
     return False
 
 
+def _frame_around_block(kinds):
+    """[(event kind, instruction)] of one emission path: a register frame brackets a user block"""
+    if ("push", "PushRegisters") in kinds and ("push", "PopRegisters") in kinds:
+        i = kinds.index(("push", "PushRegisters"))
+        j = kinds.index(("push", "PopRegisters"))
+        return "BLOCK" in [k for k, _ in kinds[i:j]]
+    return False
+
+
+def _parks_around_code(kinds):
+    """a value is pushed onto the value stack and generated code - a block, a construct, or an operand
+    expression, which can call a FUNCTION or fail and be resumed past - runs before it is popped"""
+    if ("push", "PushAToValueStack") not in kinds:
+        return False
+    i = kinds.index(("push", "PushAToValueStack"))
+    return any(k in ("gen", "BLOCK", "EXPR", "STMT") for k, _i in kinds[i + 1:])
+
+
 def r5_register_frames(ctx, rule="C05.R5"):
     """PushRegisters..BLOCK..PopRegisters brackets can be left by user jumps inside the block;
     the Jump arm of the VM must then unwind register_stack (it does not)."""
@@ -507,11 +525,8 @@ def r5_register_frames(ctx, rule="C05.R5"):
         evs = emit.events(prog, fn)
         for seq in emit.linear_paths(fn.body, evs):
             kinds = [(e.kind, e.instr) for e in seq]
-            if ("push", "PushRegisters") in kinds and ("push", "PopRegisters") in kinds:
-                i = kinds.index(("push", "PushRegisters"))
-                j = kinds.index(("push", "PopRegisters"))
-                inner = [k for k, _ in kinds[i:j]]
-                if "BLOCK" in inner:
+            if _frame_around_block(kinds):
+                if True:
                     n += 1
                     # keyed by the construct (ForLoop), not by the name of the private emitter
                     key = "%s:%s:frame-around-user-block" % (rule, common.generator_construct_of(prog, fn))
@@ -539,18 +554,32 @@ def r5_register_frames(ctx, rule="C05.R5"):
         evs = emit.events(prog, fn)
         for seq in emit.linear_paths(fn.body, evs):
             kinds = [(e.kind, e.instr) for e in seq]
-            if ("push", "PushAToValueStack") in kinds and any(k == "gen" or k == "BLOCK" for k, _i in kinds):
+            if _parks_around_code(kinds):
                 parks = True
     if parks:
         vs = {v: _touches_field(prog, one, regions.get(v, ()), "value_stack") for v in ("PopRet", "PushRet")}
         ctx.decide(vs["PopRet"] and vs["PushRet"], rule, rule + ":PopRet:restores-value-stack", one.loc,
                    "PushRet reads and PopRet restores the depth of value_stack",
-                   "a construct parks a value on the value stack around user code (SELECT CASE), but leaving the "
+                   "generated code parks a value on the value stack while other code runs (an operand while the other operand is evaluated), but leaving the "
                    "subprogram from inside it (PopRet: EXIT SUB, EXIT FUNCTION) does not restore the value stack to its "
                    "depth at the call (PushRet touches value_stack: %s, PopRet: %s): the parked value is then taken for "
                    "an operand of the caller's expression (`PRINT 100 + F%%(2)` prints 9)" % (vs["PushRet"], vs["PopRet"]))
-    ctx.analysed_units(rule, frames=n)
-    ctx.require(rule, 2)
+    if not n and not parks:
+        # nothing is kept on a VM stack around user code: FOR keeps its limit and step, SELECT CASE the
+        # value it selects on, in variables of their own, so a jump into or out of a block, EXIT SUB and
+        # RESUME have nothing to unwind.  The detector is exercised on synthetic paths so that a frame or
+        # a parked value that comes back is seen
+        E = emit.Ev
+        frame = [("push", "PushRegisters"), ("BLOCK", None), ("push", "PopRegisters")]
+        park = [("push", "PushAToValueStack"), ("EXPR", None), ("push", "PopValueStackIntoA")]
+        if not (_frame_around_block(frame) and not _frame_around_block(park) and _parks_around_code(park)
+                and not _parks_around_code(frame)):
+            raise CheckError("%s: self-test of the frame / parked-value detector failed" % rule)
+        ctx.ok(rule, rule + ":nothing-kept-on-a-stack-around-user-code", "instruction_generator",
+               "no generator emits a register frame around a user block or parks a value on the value stack "
+               "around generated code (%d generator functions); detector self-test passed" % len(emit.generator_fns(prog)))
+    ctx.analysed_units(rule, frames=n, parks=parks)
+    ctx.require(rule, 1)
 
 
 def _error_branch_region(interp):
